@@ -13,10 +13,12 @@ open FlexModel.Conc.Router Generated.Extracted
 /-- returned value = new `sequence_number` of the model state, for every state and operation index -/
 theorem get_sequence_number_eq (o : Nat) (s : St) : Router_get_sequence_number s.sn = (getSN o s).sn := by
   simp only [Router_get_sequence_number, getSN, M]
+  try omega
 
 /-- the returned value is also the one recorded in the model's log of issued sequence numbers -/
 theorem get_sequence_number_logged (o : Nat) (s : St) :
     (getSN o s).snLog = Router_get_sequence_number s.sn :: s.snLog := by
-  simp only [Router_get_sequence_number, getSN, M]
+  rw [get_sequence_number_eq o s]
+  simp only [getSN]
 
 end Props.C15BridgeSeq
